@@ -320,7 +320,10 @@ pub fn c20r_case(inp: &ExecInput, lazy: bool, fault: &str, depth: usize, rd: &Re
         let mut texts: Vec<String> = Vec::new();
         for c in &all { let t = format!("(({}, {}), {})", c.sl.0, c.sl.1, coq_str(&c.stmt)); if !texts.contains(&t) { texts.push(t); } }
         let msgs: Vec<String> = ctxs.iter().enumerate().filter_map(|(i, c)| if let Ctx::Other(m) = c { Some(format!("({}, {})", i, coq_str(m))) } else { None }).collect();
-        format!("c20r_chain_verdict ({}) ({}) {} {} {} {} ({})", crate::dump::tree_term(&info), r, coq_list(&texts),
+        // ... and the statement texts themselves are `display_stmt` of the model statement at that location (code 66)
+        let mut strs: Vec<&str> = vec![inp.dsl.as_str()];
+        for c in &all { strs.push(c.stmt.as_str()); }
+        format!("c20r_chain_disp_verdict {} ({}) ({}) {} {} {} {} ({})", crate::c20d::print_table(&strs), crate::dump::tree_term(&info), r, coq_list(&texts),
                 crate::dump::error_code(crate::dump::root_cause(&err)), coq_str(&cause), coq_list(&msgs), chain_term(&ctxs, &cause))
     });
     tags.push(format!("model_chain_compared:{}", chain_check.is_some()));
